@@ -10,19 +10,25 @@ class Spin(BaseException):
 
 class cpu_budget:
     """raise Spin in the running code once it has used `secs` of CPU time — or 8x that in wall time, for code that
-    blocks instead of spinning (e.g. a loop that fills the pinger pipe) — repeating, so a swallowed exception fires again"""
+    blocks instead of spinning (e.g. a loop that fills the pinger pipe) — repeating, so a swallowed exception fires again.
+    The handlers stay installed for the life of the process (a tick that arrives after the block is ignored)."""
+    armed = False
+    installed = False
+    @staticmethod
+    def _h(sig, frm):
+        if cpu_budget.armed: raise Spin()
     def __init__(self, secs): self.secs = secs
-    def _h(self, sig, frm): raise Spin()
     def __enter__(self):
-        self.old = signal.signal(signal.SIGVTALRM, self._h)
-        self.old2 = signal.signal(signal.SIGALRM, self._h)
+        if not cpu_budget.installed:
+            signal.signal(signal.SIGVTALRM, cpu_budget._h); signal.signal(signal.SIGALRM, cpu_budget._h)
+            cpu_budget.installed = True
+        cpu_budget.armed = True
         signal.setitimer(signal.ITIMER_VIRTUAL, self.secs, 0.02)
         signal.setitimer(signal.ITIMER_REAL, self.secs * 8, 0.05)
     def __exit__(self, *a):
+        cpu_budget.armed = False
         signal.setitimer(signal.ITIMER_VIRTUAL, 0, 0)
         signal.setitimer(signal.ITIMER_REAL, 0, 0)
-        signal.signal(signal.SIGVTALRM, self.old)
-        signal.signal(signal.SIGALRM, self.old2)
         return False
 
 
@@ -127,7 +133,41 @@ class C10(Check):
                     b = bytearray(m); b[0] = v; cases.append(self._mk(rng, side, bytes(b)))
                 for t in (22, 23, 0x7f, 0xff):                                                          # type byte
                     b = bytearray(m); b[1] = t; cases.append(self._mk(rng, side, bytes(b)))
+            # embedded lengths: every action / queue / queue-property / flow-stats-entry length field set to each small value
+            for m, offs in self._embedded(rng):
+                for off in offs:
+                    for v in (0, 1, 4, 7, 8, 9, 12, 16, 0xffff):
+                        b = bytearray(m); b[off] = v >> 8; b[off + 1] = v & 0xff
+                        cases.append(self._mk(rng, side, bytes(b)))
+            # messages near the 64 KiB limit: unknown type, bad length inside, and valid
+            for t, L in ((0x63, 65528), (0x63, 65535), (2, 65535), (10, 65000), (13, 65528)):
+                body = bytes((i * 7) & 0xff for i in range(L - 8))
+                b = bytes([1, t, L >> 8, L & 0xff, 0, 0, 0, 9]) + body
+                cases.append(self._mk(rng, side, b, cuts=(2048, 30000)))
         return cases
+
+    def _embedded(self, rng):
+        """(message bytes, offsets of embedded 16-bit length fields) for the list-carrying message types"""
+        of = self.of
+        acts = [of.ofp_action_output(port=1), of.ofp_action_vlan_vid(vlan_vid=5), of.ofp_action_dl_addr(type=4, dl_addr=of.EthAddr("00:00:00:00:00:01")),
+                of.ofp_action_enqueue(port=1, queue_id=2)]
+        def act_offs(start, alist):
+            out, p = [], start
+            for a in alist:
+                out.append(p + 2); p += len(a)
+            return out
+        res = []
+        fm = of.ofp_flow_mod(xid=1, match=of.ofp_match(in_port=1), actions=acts).pack()
+        res.append((fm, act_offs(72, acts)))
+        po = of.ofp_packet_out(xid=2, in_port=1, actions=acts, data=b"\x00" * 20).pack()
+        res.append((po, [14] + act_offs(16, acts)))
+        fs = of.ofp_flow_stats(match=of.ofp_match(in_port=1), actions=acts)
+        sr = of.ofp_stats_reply(xid=3, type=of.OFPST_FLOW, body=[fs, of.ofp_flow_stats(match=of.ofp_match(), actions=acts[:1])]).pack()
+        res.append((sr, [12] + act_offs(12 + 88, acts) + [12 + len(fs)]))
+        q = of.ofp_packet_queue(queue_id=1, properties=[of.ofp_queue_prop_min_rate(rate=5), of.ofp_queue_prop_none()])
+        qr = of.ofp_queue_get_config_reply(xid=4, port=1, queues=[q, of.ofp_packet_queue(queue_id=2)]).pack()
+        res.append((qr, [16 + 4, 16 + 8 + 2, 16 + 8 + 16 + 2, 16 + len(q) + 4]))
+        return res
 
     def generate(self, rng, tier):
         n = 400 if tier == "quick" else 12000
